@@ -647,7 +647,9 @@ MANIFEST = {
     "category": "proof",
     "text": "Deductive, inductive over request sequences: from every state satisfying the cache invariant and for every requested point of the pool, each callable handed to SciPy is "
             "proved (z3; the ensemble is an uninterpreted function of the point) to return the value at the requested point, to re-establish the invariant, not to re-evaluate cached "
-            "quantities, never to request gradients for gradient-free methods, never to combine functions and gradients under split_evaluations; speculative only adds evaluations.",
+            "quantities, never to request gradients for gradient-free methods, never to combine functions and gradients under split_evaluations; speculative only adds evaluations. "
+            "Independently of the representation of the cache: request histories (objective / gradient / constraint / Jacobian at the starting point and at another one, up to three "
+            "(thorough: all of length <= 3) requests) issued by a scripted stand-in for scipy.optimize.minimize on an optimizer made by its real constructor and started by the real start().",
     "note": "base case of the induction: start() begins every run with an empty cache; the evaluator cache scenario also runs with a variable transform; ensemble evaluation abstracted by uninterpreted functions; pool condition (identical or not allclose) assumed; N=2 variables, <=1 non-linear + 1 linear constraint, batch 2; SciPy's own calling behaviour assumed",
     "technique": "contract-based deductive verification: representation invariant of the real SciPyOptimizer cache, preservation + post-conditions per operation by symbolic execution + z3/cvc5; bounded run-time contract checking as stand-in",
 }
